@@ -1,8 +1,12 @@
 """C15 — intercepted HTTP flows are handed back exactly once, state intact.
 
-Engine A: the fault schedule is symbolic — event type, capability kind of the URL, the point at which an internal
-handler raises, and the addon's behaviour (ignore / take / take + resume later / inject a response / rewrite the URL)
-— through the real MITMProxyEventManager.pump_proxy_event, HippoHTTPFlow and CapData (de)hydration.
+Engine A: the fault schedule is symbolic — event type, capability kind of the URL (incl. a capability owned by a
+registered neighbour region that has NO open circuit), the point at which an internal handler raises, and the addon's
+behaviour (ignore / take / take + resume later / inject a response / rewrite the URL) — through the real
+MITMProxyEventManager.pump_proxy_event, HippoHTTPFlow and CapData (de)hydration.  The routing metadata is observed at
+three places: what the addon hook sees at each hop, the SerializedCapData in the handed-back state, and the CapData
+re-hydrated from that state.  `two_hop_ownership` chains the real hand-back of the request event into the response
+event of the same flow (request -> callback -> response -> callback) for owners with and without a circuit.
 """
 import mitmproxy.http
 from mitmproxy.http import HTTPFlow
@@ -12,7 +16,7 @@ from vlib.harness import harness, shard
 from harness import proxyfix as px
 from harness import httpfix as hx
 from harness.proxyfix import small
-from hippolyzer.lib.proxy.caps import CapType
+from hippolyzer.lib.proxy.caps import CapType, SerializedCapData
 from hippolyzer.lib.proxy.http_flow import HippoHTTPFlow
 
 _P = "hippolyzer.lib.proxy."
@@ -22,10 +26,24 @@ COVERS = (_P + "http_event_manager:MITMProxyEventManager.pump_proxy_event", _P +
           _P + "caps:CapData.serialize", _P + "caps:CapData.deserialize", _P + "addons:AddonManager.handle_http_request",
           _P + "addons:AddonManager.handle_http_response")
 
-KINDS = ["none", "Seed", "EventQueueGet", "GetTextureProxyWrapper", "ProxyOnly", "Temporary", "Normal"]
+KINDS = ["none", "Seed", "EventQueueGet", "GetTextureProxyWrapper", "ProxyOnly", "Temporary", "Normal", "NoCircuitRegion"]
 FAULTS = ["none", "resolve_cap", "asset_repo", "addon_hook", "session_handler", "region_handler", "logger", "bad_body"]
 ADDON = ["ignore", "take", "take_resume_later", "inject_response", "rewrite_url"]
 NK, NF, NA = len(KINDS), len(FAULTS), len(ADDON)
+
+
+# a neighbour the viewer was told about (EnableSimulator / EstablishAgentCommunication) whose caps are already in use
+# over HTTP while no UDP circuit to it has been opened: registered on the session, `circuit` stays None
+NEIGHBOUR = px.SESSION.register_region(circuit_addr=("127.0.0.1", 9), seed_url="https://test.localhost:4/seednb", handle=4567)
+K_NOCIRC = 7
+# routing metadata each session-owned kind of URL must carry: (cap name, cap type)
+ROUTE = {1: ("Seed", CapType.NORMAL), 2: ("EventQueueGet", CapType.NORMAL), 3: ("GetTextureProxyWrapper", CapType.WRAPPER),
+         4: ("MyProxyCap", CapType.PROXY_ONLY), 5: ("UploaderThing", CapType.TEMPORARY), 6: ("FetchInventory2", CapType.NORMAL),
+         7: ("NeighbourCap", CapType.NORMAL)}
+
+
+def owner_of(kind):
+    return NEIGHBOUR if kind == K_NOCIRC else px.REGION
 
 
 class Boom(Exception):
@@ -36,8 +54,12 @@ class FlowAddon:
     def __init__(self, mode, fault):
         self.mode, self.fault = mode, fault
         self.taken = None
+        self.seen = []               # routing metadata as the hook saw it: (cap name, type, session, region)
 
     def _do(self, flow):
+        cd = flow.cap_data
+        self.seen.append((cd.cap_name, cd.type, cd.session() if cd.session else None, cd.region() if cd.region else None)
+                         if cd else None)
         if self.fault == 3:
             raise Boom("addon hook")
         if self.mode in (1, 2):
@@ -64,20 +86,27 @@ def setup_caps(region):
     proxy = region.register_proxy_cap("MyProxyCap")
     region.register_cap("UploaderThing", "https://sim.example/upload/1", CapType.TEMPORARY)
     region.register_cap("FetchInventory2", "https://sim.example/cap/fetch")
+    if NEIGHBOUR.circuit is not None:
+        raise AssertionError("fixture: the neighbour must not have a circuit")
+    NEIGHBOUR.eq_manager.clear()
+    NEIGHBOUR.caps.clear()
+    NEIGHBOUR.caps["Seed"] = (CapType.NORMAL, "https://test.localhost:4/seednb")
+    NEIGHBOUR.register_cap("EventQueueGet", "https://nb.example/eq")
+    NEIGHBOUR.register_cap("NeighbourCap", "https://nb.example/cap/nbcap")
     return wrapper, proxy
 
 
 def url_for(kind, wrapper, proxy):
     return ["https://unknown.example/x", "https://test.localhost:4/foo", "https://sim.example/eq", wrapper + "/?texture_id=1",
-            proxy + "/x", "https://sim.example/upload/1", "https://sim.example/cap/fetch/sub"][kind]
+            proxy + "/x", "https://sim.example/upload/1", "https://sim.example/cap/fetch/sub", "https://nb.example/cap/nbcap/sub"][kind]
 
 
 def run(is_response, kind, fault, mode):
     addon = FlowAddon(mode, fault)
     f = px.reset([addon])
     ctx, mgr = hx.fresh_http()
-    region = px.REGION
-    wrapper, proxy = setup_caps(region)
+    wrapper, proxy = setup_caps(px.REGION)
+    region = owner_of(kind)            # the region owning the requested capability (circuit-less for kind 7)
     url = url_for(kind, wrapper, proxy)
     from urllib.parse import urlsplit
     parts = urlsplit(url)
@@ -148,6 +177,15 @@ def run(is_response, kind, fault, mode):
         px.SESSION.http_message_handler.handlers.clear()
         region.http_message_handler.handlers.clear()
     back = hx.drain(ctx.to_proxy_queue)
+    # routing metadata as seen by the addon hook at this hop (request leg: freshly resolved; response leg: re-hydrated
+    # from the state that crossed the process boundary)
+    routed = kind in ROUTE and not (kind == 5 and is_response) and (is_response or fault != 1)
+    if len(addon.seen) > 1 or (routed and addon_reached(is_response, kind, fault) and len(addon.seen) != 1):
+        return False
+    for s in addon.seen:
+        if routed and (s is None or s[0] != ROUTE[kind][0] or s[1] != ROUTE[kind][1] or s[2] is not px.SESSION
+                       or s[3] is not region):
+            return False
     took = addon.taken is not None
     if took:
         if back:
@@ -169,6 +207,7 @@ def run(is_response, kind, fault, mode):
     if len(back) != 1 or back[0][0] != "callback" or back[0][1] != flow.id:
         return False
     # state transfer: metadata / rewritten request / injected response survive
+    ser = back[0][2]["metadata"]["cap_data_ser"]      # (read first: from_state consumes the state dict)
     h2 = HippoHTTPFlow.from_state(back[0][2], px.SM)
     hook_ran = fault not in (1, 2, 3) and not (fault == 7 and False)
     if mode == 4 and addon_reached(is_response, kind, fault):
@@ -181,8 +220,16 @@ def run(is_response, kind, fault, mode):
         if not (kind == 3 and not is_response) and h2.response.content != b"injected by addon":
             return False
     cd2 = h2.cap_data
-    if fault != 1 and kind in (1, 2, 6) and not (is_response and False):
-        want_name = ["", "Seed", "EventQueueGet", "", "", "", "FetchInventory2"][kind]
+    if routed:
+        # the serialized form that actually crosses the process boundary, and its re-hydration
+        if not isinstance(ser, SerializedCapData) or ser.cap_name != ROUTE[kind][0] or ser.type != ROUTE[kind][1].name \
+                or ser.session_id != str(px.SESSION.id) or ser.region_addr != str(region.circuit_addr):
+            return False
+        if not cd2 or cd2.cap_name != ROUTE[kind][0] or cd2.type != ROUTE[kind][1] or cd2.session is None \
+                or cd2.session() is not px.SESSION or cd2.region is None or cd2.region() is not region:
+            return False
+    if fault != 1 and kind in (1, 2, 6, K_NOCIRC) and not (is_response and False):
+        want_name = ["", "Seed", "EventQueueGet", "", "", "", "FetchInventory2", "NeighbourCap"][kind]
         if not cd2 or cd2.cap_name != want_name or cd2.region is None or cd2.region() is not region \
                 or cd2.session is None or cd2.session() is not px.SESSION or cd2.type != CapType.NORMAL:
             return False
@@ -201,19 +248,148 @@ def addon_reached(is_response, kind, fault):
 
 
 @harness(pre=["0 <= kind < NK", "0 <= fault < NF", "0 <= mode < NA"], post="_", timeout=900,
-         note="fault schedules: event type {request, response} x 7 capability kinds of the URL x 8 raise points (cap "
-              "resolution, asset repo, addon hook, session handler, region handler, logger, malformed LLSD body) x 5 addon "
+         note="fault schedules: event type {request, response} x 8 capability kinds of the URL (7 on the main region, 1 owned "
+              "by a registered neighbour region that has NO open circuit) x 8 raise points (cap "
+              "resolution, asset repo, addon hook, session handler, region handler (of the owning region), logger, malformed "
+              "LLSD body) x 5 addon "
               "behaviours: exactly one ('callback', id, state) is queued per event — immediately unless the addon took the "
               "flow, and then exactly at resume() (second resume refused) — and the handed-back state preserves cap "
-              "name/type/region/session, flags, a rewritten URL and an injected response", covers=COVERS)
+              "name/type/region/session, flags, a rewritten URL and an injected response; the routing metadata (cap "
+              "name/type, session, owning region) is checked as the addon hook sees it at the hop, in the SerializedCapData "
+              "of the handed-back state (region address = the owner's circuit address) and after re-hydration", covers=COVERS)
 def flow_fault_schedules(is_response: bool, kind: int, fault: int, mode: int) -> bool:
     return run(is_response, small(kind, 0, NK - 1), small(fault, 0, NF - 1), small(mode, 0, NA - 1))
 
 
 shard(flow_fault_schedules, "kind", range(NK), KINDS, globals())
 
+
+# ---- the same flow through both hops: request event -> hand-back -> response event -> hand-back ------------------
+HOP_CAPS = ["Normal", "Seed", "EventQueueGet"]
+HOP_MODES = ["ignore", "take_resume_later"]
+
+
+class HopAddon:
+    """records the routing metadata each hook sees; per hop: ignore / take and resume later; may raise at the request hop"""
+    def __init__(self, mode_req, mode_resp, req_raises):
+        self.modes = {"request": mode_req, "response": mode_resp}
+        self.req_raises = req_raises
+        self.seen = []
+        self.taken = None
+
+    def _do(self, hop, flow):
+        cd = flow.cap_data
+        self.seen.append((hop, cd.cap_name, cd.type, cd.session() if cd.session else None, cd.region() if cd.region else None)
+                         if cd else (hop, None, None, None, None))
+        if self.modes[hop] == 1:
+            self.taken = flow.take()
+        if hop == "request" and self.req_raises:
+            raise Boom("addon hook (request hop)")
+
+    def handle_http_request(self, session_manager, flow):
+        self._do("request", flow)
+
+    def handle_http_response(self, session_manager, flow):
+        self._do("response", flow)
+
+
+def one_hop(mgr, ctx, addon, event_type, state, flow_id):
+    """pump one event; returns the single handed-back state (after the owner's resume() if the addon took the flow) or None"""
+    addon.taken = None
+    ctx.from_proxy_queue.put((event_type, state))
+    coro = mgr.pump_proxy_event()
+    try:
+        coro.send(None)
+    except StopIteration:
+        pass
+    except Exception:
+        pass
+    finally:
+        coro.close()
+    back = hx.drain(ctx.to_proxy_queue)
+    if addon.taken is not None:
+        if back:
+            return None
+        addon.taken.resume()
+        back = hx.drain(ctx.to_proxy_queue)
+    if len(back) != 1 or back[0][0] != "callback" or back[0][1] != flow_id:
+        return None
+    return back[0][2]
+
+
+@harness(pre=["0 <= cap <= 2", "0 <= mode_req <= 1", "0 <= mode_resp <= 1"], post="_", timeout=900,
+         note="one flow through both hops (request event -> real hand-back state -> mitmproxy attaches the response -> "
+              "response event -> hand-back) for owner region {main region with circuit, registered neighbour WITHOUT circuit} x "
+              "cap {Normal, Seed, EventQueueGet} x addon at each hop {ignore, take + resume later} x addon hook raising at the "
+              "request hop: one callback per hop; the addon hook sees the same cap name/type/session/owning region at both "
+              "hops; the SerializedCapData handed back after the response hop equals the one after the request hop and "
+              "names the owner's circuit address; the owner's region-level HTTP handler runs exactly once (response hop) "
+              "and a Seed response updates the owner's caps", covers=COVERS)
+def two_hop_ownership(no_circuit: bool, cap: int, mode_req: int, mode_resp: int, req_raises: bool) -> bool:
+    cap, mode_req, mode_resp = small(cap, 0, 2), small(mode_req, 0, 1), small(mode_resp, 0, 1)
+    addon = HopAddon(mode_req, mode_resp, bool(req_raises))
+    px.reset([addon])
+    ctx, mgr = hx.fresh_http()
+    setup_caps(px.REGION)
+    if no_circuit:
+        owner, host = NEIGHBOUR, "nb.example"
+        name, path, port = [("NeighbourCap", "/cap/nbcap/sub", 443), ("Seed", "/seednb", 4), ("EventQueueGet", "/eq", 443)][cap]
+    else:
+        owner, host = px.REGION, "sim.example"
+        name, path, port = [("FetchInventory2", "/cap/fetch/sub", 443), ("Seed", "/foo", 4), ("EventQueueGet", "/eq", 443)][cap]
+    if cap == 1:
+        host = "test.localhost"
+    if (owner.circuit is None) != bool(no_circuit):
+        raise AssertionError("fixture: circuit presence")
+    body = [b"payload", hx.xml(["FetchInventory2"]), hx.xml({"ack": 1, "done": False})][cap]
+    granted = "https://sim.example/cap/f2-" + ("nb" if no_circuit else "main")
+    resp_body = [b"ok", hx.xml({"FetchInventory2": granted}), hx.xml({"id": 2, "events": []})][cap]
+    handled = []
+    px.SESSION.http_message_handler.handlers.clear()
+    owner.http_message_handler.handlers.clear()
+    other = px.REGION if no_circuit else NEIGHBOUR
+    other.http_message_handler.handlers.clear()
+    owner.http_message_handler.subscribe("*", lambda fl: handled.append("owner"))
+    other.http_message_handler.subscribe("*", lambda fl: handled.append("other"))
+    try:
+        flow = hx.make_flow(url_host=host, port=port, path=path, content=body)
+        st1 = one_hop(mgr, ctx, addon, "request", flow.get_state(), flow.id)
+        if st1 is None:
+            return False
+        ser1 = st1["metadata"]["cap_data_ser"]
+        # the HTTP proxy process performs the request and reports the response for the very state it got back
+        f2 = HTTPFlow.from_state(st1)
+        f2.response = tutils.tresp(content=resp_body, status_code=200)
+        st2 = one_hop(mgr, ctx, addon, "response", f2.get_state(), flow.id)
+        if st2 is None:
+            return False
+        ser2 = st2["metadata"]["cap_data_ser"]
+    finally:
+        owner.http_message_handler.handlers.clear()
+        other.http_message_handler.handlers.clear()
+    want = SerializedCapData(cap_name=name, region_addr=str(owner.circuit_addr), session_id=str(px.SESSION.id),
+                             base_url=["https://" + host + path[:-4], "https://test.localhost:4" + path,
+                                       "https://" + host + "/eq"][cap], type="NORMAL")
+    if ser1 != want or ser2 != want:
+        return False
+    if len(addon.seen) != 2:
+        return False
+    for hop, s in zip(("request", "response"), addon.seen):
+        if s[0] != hop or s[1] != name or s[2] != CapType.NORMAL or s[3] is not px.SESSION or s[4] is not owner:
+            return False
+    if handled != ["owner"]:
+        return False
+    if cap == 1 and owner.cap_urls.get("FetchInventory2") != granted:
+        return False
+    h3 = HippoHTTPFlow.from_state(st2, px.SM)
+    cd3 = h3.cap_data
+    return bool(cd3) and cd3.region is not None and cd3.region() is owner and cd3.session is not None \
+        and cd3.session() is px.SESSION and cd3.cap_name == name
+
 EVIDENCE = {
-    "bounds": "one event per path; 2 event types x 7 cap kinds x 8 raise points x 5 addon behaviours (all 560 combinations)",
+    "bounds": "one event per path; 2 event types x 8 cap kinds (7 on the main region + 1 owned by a circuit-less neighbour "
+              "region) x 8 raise points x 5 addon behaviours (all 640 combinations); two-hop chains: 2 owners x 3 caps x 2 x 2 "
+              "addon behaviours x 2 (request hook raises) = 48",
     "outside": "URLs/bodies are a concrete catalogue (mitmproxy state conversion hashes/regex-parses them); the mitmproxy-side "
                "_pump_callbacks loop (needs a running mitmproxy master); preempt()",
     "assumptions": ["exceptions propagating out of pump_proxy_event are logged by MITMProxyEventManager.run()"],
